@@ -761,3 +761,102 @@ Proof.
   repeat (split; [vm_compute; reflexivity|]). vm_compute; reflexivity.
 Qed.
 Print Assumptions C17_affine_nonvacuous.
+
+(* ===================================================================== *)
+(* 8. The group law itself (Proofs/EcLaw.v, EcLawCerts.v, EcLawFast.v, EcLawCurves.v).
+
+   Sections 2-7 assume `ec_group`.  Here it is PROVED: for every prime p > 2 and every
+   non-singular short-Weierstrass curve over Z_p the chord-and-tangent addition on the reduced
+   points of the curve (ec_wf) is associative - every degenerate configuration included -, hence
+   the multiples of any base point of odd order form an `ec_group` for the executable affine
+   addition aff_add.  The computational part (polynomial identities with several thousand terms)
+   is checked by `ring` from certificates computed offline (tools/offline/eclaw_certs.py); the
+   hypothesis n * G = infinity is discharged for shipped curves by a closed double-and-add
+   computation over the GENERATED constants (curves_checked: SECP112r1, SECP112r2, SECP128r1 and
+   the plug-in curve NIST256p).  What is left as hypothesis is primality of p (and of n where the
+   exact order of G is needed); Properties/C19.v certifies those primes (Pocklington). *)
+From Bec2 Require Import Proofs.EcLaw Proofs.EcLawFast Proofs.EcLawCurves.
+
+Theorem C17_group_closed : forall p a b P Q, prime p -> 2 < p ->
+  ec_wf p a b P -> ec_wf p a b Q -> ec_wf p a b (ec_add p a P Q).
+Proof. intros p a b P Q. exact (EcLaw_L1_ec_add_wf p a b P Q). Qed.
+Print Assumptions C17_group_closed.
+
+Theorem C17_group_assoc : forall p a b P Q R, prime p -> 2 < p ->
+  ~ eqm p (4 * a * a * a + 27 * b * b) 0 ->
+  ec_wf p a b P -> ec_wf p a b Q -> ec_wf p a b R ->
+  ec_add p a (ec_add p a P Q) R = ec_add p a P (ec_add p a Q R).
+Proof. intros p a b P Q R. exact (EcLaw_L5_assoc p a b P Q R). Qed.
+Print Assumptions C17_group_assoc.
+
+(* ec_add is aff_add except for the doubling of a point with y == 0 (where aff_add's
+   x^(p-2) "inverse" of 0 gives a point off the curve and ec_add gives infinity) *)
+Theorem C17_group_ec_add_is_aff_add : forall p a x1 y1 x2 y2,
+  ~ eqm p x1 x2 \/ ~ eqm p y1 y2 \/ ~ eqm p y1 0 ->
+  ec_add p a (Some (x1, y1)) (Some (x2, y2)) = aff_add p a (Some (x1, y1)) (Some (x2, y2)).
+Proof. intros p a x1 y1 x2 y2. exact (EcLaw_L1_ec_add_eq_aff_add p a x1 y1 x2 y2). Qed.
+Print Assumptions C17_group_ec_add_is_aff_add.
+
+Theorem C17_group_generated : forall p a b gx gy n,
+  prime p -> 2 < p -> ~ eqm p (4 * a * a * a + 27 * b * b) 0 ->
+  0 <= gx < p -> 0 <= gy < p -> on_curve p a b (gx, gy) ->
+  0 < n -> Z.odd n = true -> zmul (aff_add p a) (aff_neg p) n (Some (gx, gy)) = None ->
+  ec_group p a (fun P => exists k : nat, P = nmul (aff_add p a) k (Some (gx, gy)))
+           (aff_add p a) (aff_neg p).
+Proof. intros p a b gx gy n. exact (EcLaw_L5_group_generated p a b gx gy n). Qed.
+Print Assumptions C17_group_generated.
+
+(* the group-law hypothesis of sections 2-7 for shipped curves: only primality is assumed *)
+Theorem C17_group_shipped : forall c, In c curves_checked -> prime (c_p c) ->
+  let p := c_p c in let a := c_a c in let G := Some (c_Gx c, c_Gy c) in
+  let inG := fun P : pt => exists k : nat, P = nmul (aff_add p a) k G in
+  ec_group p a inG (aff_add p a) (aff_neg p) /\
+  inG G /\
+  zmul (aff_add p a) (aff_neg p) (c_n c) G = None /\
+  (forall q, inG (Some q) -> on_curve p a (c_b c) q) /\
+  (prime (c_n c) -> forall k, 0 < k < c_n c -> zmul (aff_add p a) (aff_neg p) k G <> None).
+Proof. exact EcLawCurves_group_full. Qed.
+Print Assumptions C17_group_shipped.
+
+Example C17_group_shipped_covers : In NIST256p curves_checked /\ incl curves_checked curves.
+Proof. split; [exact p256_checked | exact curves_checked_incl]. Qed.
+
+(* the plug-in facts of section 3b and the capstones of section 6 with NO group-law hypothesis *)
+Theorem C17_p256_pub_valid_closed : prime p256_p -> prime p256_n ->
+  forall d, p256_valid_pub (p256_pub_of d) = true.
+Proof. exact EcLawCurves_p256_pub_valid. Qed.
+Print Assumptions C17_p256_pub_valid_closed.
+
+Theorem C17_p256_ecdh_comm_closed : prime p256_p -> prime p256_n ->
+  forall d e, p256_ecdh d (p256_pub_of e) = p256_ecdh e (p256_pub_of d).
+Proof. exact EcLawCurves_p256_ecdh_comm. Qed.
+Print Assumptions C17_p256_ecdh_comm_closed.
+
+Theorem C17_bec2_roundtrip_p256 : prime p256_p -> prime p256_n ->
+  forall sha256 keygen rand16 f bs key encs decs nk t nk' check nr,
+    blen key = 16%N -> wf_file f -> bs <> [] ->
+    NoDup (map fst bs) -> all_match p256_pub_of bs encs decs ->
+    bec2_write_file (adapter_encrypt aes_E) (adapter_mac aes_E) sha256 p256_pub_of p256_ecdh keygen (mkBec2 f bs key) encs nk = Ok (t, nk') ->
+    bec2_read_file (adapter_decrypt aes_D) (adapter_mac aes_E) sha256 p256_valid_pub p256_ecdh rand16 t decs check nr =
+      Ok (mkBec2 (file_view f) bs key, nr).
+Proof.
+  intros Hp Hn. destruct (EcLawCurves_p256 Hp) as [GH GI].
+  destruct (EcLawCurves_p256_facts Hp) as (H3 & H4 & H5).
+  exact (C17_bec2_roundtrip_capstone _ _ _ GH GI H3 (H5 Hn) H4).
+Qed.
+Print Assumptions C17_bec2_roundtrip_p256.
+
+Theorem C17_ecies_recover_p256 : prime p256_p -> prime p256_n ->
+  forall sha256 keygen sel key exts nk raw nk' s d pr,
+    blen key = 16%N ->
+    select_encryptor KEcc exts
+      (match default_pub sel with Some p => Some (EEcc sel p None) | None => None end) (ecc_sel_is sel)
+      = Ok (EEcc s (p256_pub_of d) pr) ->
+    pack (adapter_encrypt aes_E) sha256 p256_pub_of p256_ecdh keygen (ABEcc sel) key exts nk = Ok (raw, nk') ->
+    ecies_recipient (adapter_decrypt aes_D) sha256 p256_ecdh d raw = Ok (sel, key).
+Proof.
+  intros Hp Hn. destruct (EcLawCurves_p256 Hp) as [GH GI].
+  destruct (EcLawCurves_p256_facts Hp) as (H3 & H4 & H5).
+  exact (C17_ecies_recover_capstone _ _ _ GH GI H3 (H5 Hn) H4).
+Qed.
+Print Assumptions C17_ecies_recover_p256.
